@@ -843,7 +843,7 @@ func (e *Engine) convert(st *State, x Value, from, to types.Type) Value {
 				return e.strConst("")
 			}
 			off := e.concInt(st, v.off)
-			arr := st.heap[v.obj].(*ArrV)
+			arr := st.sliceArr(v)
 			e.raceAccess(st, v.obj, false)
 			m := make(map[int]Value, n)
 			for i := 0; i < n; i++ {
@@ -940,12 +940,12 @@ func (e *Engine) indexAddr(st *State, fr *Frame, in *ssa.IndexAddr) Value {
 		e.boundsCheck(st, idx, v.len, "slice")
 		abs := e.ts.Bin(OpAdd, v.off, idx)
 		if abs.IsConst() {
-			return Ptr{obj: v.obj}.extend(int(abs.val))
+			return Ptr{obj: v.obj, path: v.path}.extend(int(abs.val))
 		}
 		if c, ok := st.conc[abs.id]; ok {
-			return Ptr{obj: v.obj}.extend(int(c))
+			return Ptr{obj: v.obj, path: v.path}.extend(int(c))
 		}
-		return Ptr{obj: v.obj, sym: abs}
+		return Ptr{obj: v.obj, path: v.path, sym: abs}
 	case Ptr: // *array
 		if v.obj == 0 {
 			panic(goPanic{"nil pointer dereference (array index)"})
@@ -1020,14 +1020,13 @@ func (e *Engine) sliceOp(st *State, fr *Frame, in *ssa.Slice) Value {
 		if v.obj == 0 {
 			return v
 		}
-		return SliceV{obj: v.obj, off: ts.Bin(OpAdd, v.off, lo), len: ts.Bin(OpSub, hi, lo), cap: ts.Bin(OpSub, max, lo)}
+		return SliceV{obj: v.obj, path: v.path, off: ts.Bin(OpAdd, v.off, lo), len: ts.Bin(OpSub, hi, lo), cap: ts.Bin(OpSub, max, lo)}
 	case Ptr: // *array
 		if v.obj == 0 {
 			panic(goPanic{"nil pointer dereference (slice of array)"})
 		}
-		if len(v.path) != 0 {
-			// array embedded in a struct: move it to its own view is not possible; use path-carrying slices
-			panic(engErr("slicing an array embedded in a struct is unsupported"))
+		if v.sym != nil {
+			v = e.concPtr(st, v)
 		}
 		n := e.i64(uint64(in.X.Type().Underlying().(*types.Pointer).Elem().Underlying().(*types.Array).Len()))
 		if hi == nil {
@@ -1040,7 +1039,7 @@ func (e *Engine) sliceOp(st *State, fr *Frame, in *ssa.Slice) Value {
 		}
 		chk(ts.Ule(hi, max), "array high")
 		chk(ts.Ule(lo, hi), "array low")
-		return SliceV{obj: v.obj, off: lo, len: ts.Bin(OpSub, hi, lo), cap: ts.Bin(OpSub, max, lo)}
+		return SliceV{obj: v.obj, path: v.path, off: lo, len: ts.Bin(OpSub, hi, lo), cap: ts.Bin(OpSub, max, lo)}
 	}
 	panic(engErr("slice on %T", x))
 }
